@@ -69,6 +69,8 @@ func ogURL(tr, addr string) string {
 		return "https://" + addr + "/dns-query"
 	case "doq":
 		return "quic://" + addr
+	case "h3":
+		return "h3://" + addr + "/dns-query"
 	}
 	return ""
 }
